@@ -26,7 +26,7 @@ REACH_PROBES = ['C_one_transformer_many_texts', 'A_literal', 'A_file', 'A_progra
                 'A_partial_lines', 'A_text_longer_than_buffer', 'A_text_fits_buffer',
                 'A_multibyte', 'A_cr', 'A_unicode_line_separators', 'A_no_final_newline', 'A_empty_text',
                 'A_family_line_based', 'A_family_cached', 'A_run_transformer', 'A_write_to_spooled', 'A_as_file',
-                'A_default_buffer', 'B_family', 'B_equals_file_vs_file', 'B_equals_program', 'B_line_end_variant',
+                'A_default_buffer', 'B_family', 'B_operand_after_transformation', 'B_transformed_operand_is_empty', 'B_equals_file_vs_file', 'B_equals_program', 'B_line_end_variant',
                 'B_multibyte', 'spooled_rollover']
 
 SAFE = ['a', 'b', ' ', '\n', '\n', '.', '\t', 'c']
@@ -214,7 +214,14 @@ def plan_b(seed, tier, g):
     alpha = list(SAFE) + (MULTI if 'multi' in classes else []) + (SEPS if 'seps' in classes else []) + \
         (CR if 'cr' in classes else [])
     T = ''.join(g.choice(alpha) for _ in range(g.choice([0, 1, 2, 5, 9, 20, 70])))
-    nl = len(ref_lines(translate(T)))
+    # "or any of these after transformation": the operand of the assertion is the text after a chain of transformers
+    # (whose result is what gets cached for reuse by `( M && M )`); often one whose result is empty or a single line
+    pre = []
+    if 'cr' not in classes and g.random() < 0.5:
+        pre = [g.choice(sorted(TRANSFORMERS) + ['grep_full_none', 'grep_b', 'filter_first'])
+               for _ in range(g.choice([1, 1, 2]))]
+    X = _apply_chain(pre, translate(T))
+    nl = len(ref_lines(X))
     mk = g.choice(['num_lines', 'is_empty', 'equals_file', 'equals_prog', 'equals_lit', 'any_line', 'every_line',
                    'grep_num_lines'])
     other = None
@@ -224,25 +231,26 @@ def plan_b(seed, tier, g):
     elif mk in ('is_empty', 'any_line', 'every_line'):
         m = {'kind': mk}
     elif mk == 'grep_num_lines':
-        k0 = sum(1 for l in ref_lines(translate(T)) if 'a' in l)
+        k0 = sum(1 for l in ref_lines(X) if 'a' in l)
         m = {'kind': mk, 'n': g.choice([k0, k0, k0 + 1])}
     else:
         r = g.random()
+        T_ = X if pre else T
         if r < 0.5:
-            other = T
+            other = T_
         elif r < 0.75:
-            other = T + 'x'
-        elif r < 0.9 and '\n' in T:
-            other = translate(T).replace('\n', '\r\n')  # same text, other line-end convention
+            other = T_ + 'x'
+        elif r < 0.9 and '\n' in T_:
+            other = translate(T_).replace('\n', '\r\n')  # same text, other line-end convention
         else:
-            other = 'y' + T
+            other = 'y' + T_
         if mk == 'equals_lit' and ('\r' in other or "'" in other):
             mk = 'equals_file'
         m = {'kind': mk, 'other': other}
     knobs = g.sample([1, 3, 8, 64, 8192], 2)
     return {'format': 1, 'property': PROPERTY, 'engine': 'c14', 'run_seed': seed, 'tier': tier, 'workload': 'B',
             'knobs': {'mem_buff_size': knobs[0]}, 'knob_list': knobs, 'entry': 'cli', 'T': T, 'matcher': m,
-            'classes': classes, 'sweep': False}
+            'classes': classes, 'sweep': False, 'pre': pre}
 
 
 # ----------------------------------------------------------------------------- execute A
@@ -488,7 +496,7 @@ def _matcher_syntax(m, w):
 
 
 def expected_b(plan):
-    T = translate(plan['T'])
+    T = _apply_chain(plan.get('pre') or [], translate(plan['T']))
     m = plan['matcher']
     if m['kind'] == 'num_lines':
         return len(ref_lines(T)) == m['n']
@@ -508,7 +516,8 @@ def execute_b(plan, scratch):
     w = world_mod.World(os.path.join(scratch, 'w'))
     T, m = plan['T'], plan['matcher']
     w.write('home/actual.txt', data=T.encode('utf-8'))
-    procs = {'actprog': {'exit': 0, 'stdout': T}, 'atc': {'exit': 0, 'stdout': T}}
+    procs = {'actprog': {'exit': 0, 'stdout': T}, 'atc': {'exit': 0, 'stdout': T}, 'cat': {'cat': True, 'exit': 0}}
+    pre = plan.get('pre') or []
     if 'other' in m:
         w.write('home/exp.txt', data=m['other'].encode('utf-8'))
         procs['expprog'] = {'exit': 0, 'stdout': m['other']}
@@ -518,8 +527,11 @@ def execute_b(plan, scratch):
     sim_seconds = 0.0
     texts = {}
     for src in ('file', 'prog', 'atc'):
-        for wrap in ('plain', 'identity', 'andand'):
-            mm = {'plain': M, 'identity': '-transformed-by identity ' + M, 'andand': '( %s && %s )' % (M, M)}[wrap]
+        for wrap in ('plain', 'identity', 'andand', 'oror'):
+            mm = {'plain': M, 'identity': '-transformed-by identity ' + M, 'andand': '( %s && %s )' % (M, M),
+                  'oror': '( %s || %s )' % (M, M)}[wrap]
+            if pre:
+                mm = '-transformed-by ' + _chain_syntax(pre) + ' ' + mm
             if src == 'file':
                 instr = 'contents -rel-home actual.txt : ' + mm
             elif src == 'prog':
@@ -548,6 +560,10 @@ def execute_b(plan, scratch):
         pr['B_line_end_variant'] = 1
     if any(c in T for c in MULTI):
         pr['B_multibyte'] = 1
+    if pre:
+        pr['B_operand_after_transformation'] = 1
+        if _apply_chain(pre, translate(T)) == '':
+            pr['B_transformed_operand_is_empty'] = 1
     hist['probes'] = pr
     hist['armed'] = {}
     hist['fired'] = {}
@@ -696,7 +712,7 @@ def classify_known(plan, hist, violation, kf):
             return False
         if not ('\r' in plan['T'] or '\r' in mt['other']):
             return False
-        if translate(mt['other']) != translate(plan['T']):
+        if translate(mt['other']) != _apply_chain(plan.get('pre') or [], translate(plan['T'])):
             return False
         # the model says PASS (equal after the one universal-newline translation); some forms say FAIL - none errs
         return all(hist['results'][k]['exit'] == 32 for k in violation.get('wrong_keys', []))
@@ -711,7 +727,7 @@ def signature(plan, hist):
     cls = tuple(sorted({'multi' if any(c in T for c in MULTI) else '', 'cr' if '\r' in T else '',
                         'seps' if any(c in T for c in SEPS) else '', 'nofinalnl' if T and not T.endswith('\n') else ''}))
     if plan['workload'] == 'B':
-        return True, ('B', plan['matcher']['kind'], cls, len(T) > 8, tuple(plan['knob_list']))
+        return True, ('B', plan['matcher']['kind'], cls, len(T) > 8, tuple(plan['knob_list']), tuple(plan.get('pre') or []))
     knob = plan['knobs']['mem_buff_size']
     n = len(T)
     rel = 'lt' if n < knob else ('eq' if n == knob else 'gt')
